@@ -31,9 +31,15 @@ def digest(v):
     return hashlib.sha1(canon(v).encode()).hexdigest()[:10]
 
 
+def safe_key(k):
+    """attribute names may contain blanks or '=' (anything left of the first '=' in a preamble line)"""
+    k = str(k)
+    return k if k.replace('_', '').isalnum() else 'hex' + k.encode().hex()
+
+
 def attrs_tokens(d):
     """attribute dictionary -> protocol tokens key=digest (insertion order)"""
-    toks = ['%s=%s' % (k, digest(v)) for k, v in d.items()]
+    toks = ['%s=%s' % (safe_key(k), digest(v)) for k, v in d.items()]
     return toks or ['-']
 
 
@@ -240,8 +246,8 @@ def run(rep):
             else:
                 assign.append(('verif_new_%d' % rng.randrange(3), rng.random()))
         items = [(k, v) for k, v in pt.items() if k != 'dataset']
-        tok_o = ['%s=%s' % (k, digest(v)) for k, v in items]
-        tok_a = ['%s=%s' % (k, digest(v)) for k, v in assign]
+        tok_o = ['%s=%s' % (safe_key(k), digest(v)) for k, v in items]
+        tok_a = ['%s=%s' % (safe_key(k), digest(v)) for k, v in assign]
         line = 'c17.copyset %s | %s' % (' '.join(tok_o), ' '.join(tok_a))
         try:
             c = pt.copy()
@@ -250,8 +256,8 @@ def run(rep):
                     setattr(c, k, v)
                 else:
                     c[k] = v
-            so = ' '.join('%s=%s' % (k, digest(v)) for k, v in pt.items() if k != 'dataset') or '-'
-            sc = ' '.join('%s=%s' % (k, digest(v)) for k, v in c.items() if k != 'dataset') or '-'
+            so = ' '.join('%s=%s' % (safe_key(k), digest(v)) for k, v in pt.items() if k != 'dataset') or '-'
+            sc = ' '.join('%s=%s' % (safe_key(k), digest(v)) for k, v in c.items() if k != 'dataset') or '-'
             impl = so + ' | ' + sc
             if type(c).__name__ != 'DataPoint' or c.__dict__ is not c:
                 impl += ' BADCOPY'
